@@ -69,20 +69,20 @@ int decodeKey(const Key & s) { return (s.size() > 2 && s[0] == 'k' && s == mkKey
 #define KP1 const Key & ek
 #define KP const Key & ek,
 #define KGOT decodeKey(ek)
-#define PROTO(...) void (Key, ##__VA_ARGS__)
+template <typename ...A> using Proto = void (Key, A...);
 #else
 using Key = int;
 Key mkKey(long k) { return (int)k; }
 #define KP1
 #define KP
 #define KGOT (-100)
-#define PROTO(...) void (__VA_ARGS__)
+template <typename ...A> using Proto = void (A...);
 #endif
 
 #if VH_LIST == 0
-using List = eventpp::HeterTuple<PROTO(), PROTO(int), PROTO(const std::string &), PROTO(Payload), PROTO(int, int)>;
+using List = eventpp::HeterTuple<Proto<>, Proto<int>, Proto<const std::string &>, Proto<Payload>, Proto<int, int> >;
 #else
-using List = eventpp::HeterTuple<PROTO(int, int), PROTO(const Payload &), PROTO(long), PROTO(std::string), PROTO(int), PROTO()>;
+using List = eventpp::HeterTuple<Proto<int, int>, Proto<const Payload &>, Proto<long>, Proto<std::string>, Proto<int>, Proto<> >;
 #endif
 constexpr int NP = eventpp::HeterTupleSize<List>::value;
 
